@@ -684,6 +684,15 @@ impl<Writer: Write> Mp4Writer<Writer> {
                 "video width/height must fit in 16 bits",
             ));
         }
+        // dOps stores the Opus channel count in 8 bits.
+        if let Some(audio) = &self.audio_track {
+            if matches!(audio.codec, AudioCodec::Opus) && audio.channels > u8::MAX as u16 {
+                return Err(io::Error::new(
+                    io::ErrorKind::InvalidInput,
+                    "Opus channel count must fit in 8 bits",
+                ));
+            }
+        }
         self.finalized = true;
 
         let video_config = self
